@@ -53,6 +53,67 @@ func judgeC09Proc(e *Env, c *C09ProcCase, tag string, run int64) (*c09Obs, bool,
 	return obs, skipped, err
 }
 
+// C09StdinCase: the same bytes on stdin, delivered in one write and in bursts.
+type C09StdinCase struct {
+	World   procsim.World `json:"world"`
+	Cwd     string        `json:"cwd"`
+	Ext     string        `json:"ext"`
+	Content string        `json:"stdin"`
+	Bursts  [][]int       `json:"bursts"` // one entry per run; nil = a single write
+}
+
+func runC09Stdin(e *Env, c *C09StdinCase, tag string, run int64) (*c09Obs, error) {
+	var obs *c09Obs
+	err := withWorld(e, tag, run, &c.World, func(root string) error {
+		var first *procsim.Outcome
+		for k, bursts := range c.Bursts {
+			inv := procsim.Invocation{Kind: "stock", Args: []string{"-f", "json", "--", "-." + c.Ext}, Cwd: c.Cwd, Stdin: c.Content,
+				StdinBursts: bursts, Env: map[string]string{"VERIF_A": "va", "VERIF_B": "3"}}
+			out, err := runInv(e, root, "bkl", &inv)
+			if err != nil {
+				return err
+			}
+			if out.Crash != "" || out.CPUOut || out.Signal != "" {
+				return nil
+			}
+			if first == nil {
+				first = out
+				continue
+			}
+			if (first.Status == 0) != (out.Status == 0) || first.Stdout != out.Stdout {
+				obs = &c09Obs{Clause: "result-depends-on-how-stdin-is-delivered", Op: k,
+					Got:  short(fmt.Sprintf("bursts %v: status %d stdout %s", bursts, out.Status, out.Stdout), 600),
+					Want: short(fmt.Sprintf("single write: status %d stdout %s", first.Status, first.Stdout), 600)}
+				return nil
+			}
+		}
+		return nil
+	})
+	return obs, err
+}
+
+// genC09Stdin feeds one of the world's layers on stdin (as "-.<ext>").
+func genC09Stdin(c *C09ProcCase, r *gen.Rand) *C09StdinCase {
+	if len(c.World.Files) == 0 {
+		return nil
+	}
+	f := c.World.Files[r.Intn(len(c.World.Files))]
+	content, ok := f.Bytes()
+	if !ok {
+		return nil
+	}
+	ext := procsim.Ext(f.Path)
+	if (ext == "yaml" || ext == "yml" || ext == "toml") && r.Chance(0.4) {
+		content += "# " + strings.Repeat("pad ", r.Range(100, 40000)) + "\n"
+	}
+	n := len(content)
+	sc := &C09StdinCase{World: c.World, Cwd: c.Inv.Cwd, Ext: ext, Content: content, Bursts: [][]int{nil}}
+	for k := 0; k < 2; k++ {
+		sc.Bursts = append(sc.Bursts, []int{r.Range(1, 1+n/2), r.Range(1, 1+n/3)})
+	}
+	return sc
+}
+
 // runC09Proc is sub-check 4: the stock CLI, several fresh processes per
 // world, real runtime map order, GOMAXPROCS 1 and 16.
 func runC09Proc(e *Env) (int, error) {
@@ -81,6 +142,19 @@ func runC09Proc(e *Env) (int, error) {
 			ev.Count("skipped_resource_exhaustion", 1)
 			return harness.RunResult{}
 		}
+		// the same bytes on stdin, delivered in one write and in bursts
+		if obs == nil && c.Tool == "bkl" && run%3 == 0 {
+			if sc := genC09Stdin(c, r); sc != nil {
+				o2, err := runC09Stdin(e, sc, "stdin", run)
+				if err != nil {
+					return harness.RunResult{Err: err}
+				}
+				ev.Count("stdin_burst_comparisons", 1)
+				if o2 != nil {
+					return harness.RunResult{Violation: &harness.Violation{Property: "C09", Check: "stdin", Clause: o2.Clause, Seed: e.Seed, Run: run, Case: sc, Observed: o2}}
+				}
+			}
+		}
 		ev.Eval("")
 		ev.Count("fresh_process_worlds", 1)
 		ev.Count("fresh_process_runs", int64(len(c.Runs)))
@@ -93,6 +167,21 @@ func runC09Proc(e *Env) (int, error) {
 }
 
 func init() {
+	replayers["C09/stdin"] = func(e *Env, raw []byte) (string, any, error) {
+		var v struct {
+			Clause string       `json:"clause"`
+			Run    int64        `json:"run"`
+			Case   C09StdinCase `json:"case"`
+		}
+		if err := json.Unmarshal(raw, &v); err != nil {
+			return "", nil, err
+		}
+		o, err := runC09Stdin(e, &v.Case, "replay", v.Run)
+		if err != nil || o == nil || o.Clause != v.Clause {
+			return "", o, err
+		}
+		return o.Clause, o, nil
+	}
 	replayers["C09/processes"] = func(e *Env, raw []byte) (string, any, error) {
 		var v struct {
 			Clause string      `json:"clause"`
